@@ -856,7 +856,10 @@ func gen(r *Rng, tier string, emit func(Sx)) {
 			case 0:
 				return uint64(r.Intn(3)) * 131072
 			case 1:
-				return near(r, uint64(tgt)*131072)
+				if v := near(r, uint64(tgt)*131072); v < 1<<40 { // no wrap below zero
+					return v
+				}
+				return 0
 			case 2:
 				return uint64(r.Intn(40)) * uf / 3
 			case 3:
